@@ -6,8 +6,10 @@ pub mod c03;
 pub mod c04;
 pub mod c06;
 pub mod c08;
+pub mod c09;
 pub mod c10;
 pub mod c11;
+pub mod c12;
 pub mod c13;
 pub mod c15;
 pub mod c16;
@@ -26,8 +28,10 @@ pub fn run(id: &str, tier: Tier, seed: u64) -> i32 {
         "C04" => c04::run(&Ctx::new(id, tier, seed, 60.0, 900.0)),
         "C06" => c06::run(&Ctx::new(id, tier, seed, 45.0, 480.0)),
         "C08" => c08::run(&Ctx::new(id, tier, seed, 60.0, 600.0)),
+        "C09" => c09::run(&Ctx::new(id, tier, seed, 45.0, 360.0)),
         "C10" => c10::run(&Ctx::new(id, tier, seed, 40.0, 360.0)),
         "C11" => c11::run(&Ctx::new(id, tier, seed, 45.0, 360.0)),
+        "C12" => c12::run(&Ctx::new(id, tier, seed, 60.0, 480.0)),
         "C13" => c13::run(&Ctx::new(id, tier, seed, 60.0, 600.0)),
         "C15" => c15::run(&Ctx::new(id, tier, seed, 30.0, 240.0)),
         "C16" => c16::run(&Ctx::new(id, tier, seed, 30.0, 300.0)),
